@@ -31,6 +31,9 @@ func ExpandCounter(name string) []string {
 	rest = strings.TrimSuffix(rest, "}")
 	var out []string
 	for _, b := range strings.Split(rest, ",") {
+		if b == "" {
+			continue // an empty bucket list, or an empty element of it, names no counter
+		}
 		out = append(out, prefix+b)
 	}
 	return out
